@@ -50,6 +50,7 @@ def run(sid, tier="quick", props=None):
     if ap.returncode != 0:
         print("PATCH DOES NOT APPLY", ap.stderr); return 1
     res = {}
+    failing = None
     try:
         for p in props:
             r = sh([str(V / "check"), p, "--tier", tier], cwd=V, timeout=3600)
@@ -61,6 +62,8 @@ def run(sid, tier="quick", props=None):
                     rp = l.split("replay=")[1].split()[0]
                     try:
                         j = json.loads(Path(rp).read_text())
+                        if j.get("kind") == "failing-input" and p == meta["property"]:
+                            failing = j
                         print("   replay:", json.dumps({k: j.get(k) for k in ("kind", "what", "theorem", "correspondence")}, ensure_ascii=False)[:300])
                     except Exception as e:
                         print("   replay unreadable", e)
@@ -68,6 +71,15 @@ def run(sid, tier="quick", props=None):
         sh("git -C /repo checkout -- .")
         assert sh("git -C /repo status --porcelain").stdout.strip() == ""
         sh(["/venv/bin/python", str(V / "harness/extract.py")])      # Generated/*.lean back to the unchanged tree
+    if failing is not None:
+        # keep the failing input as a regression case if it is well-formed for the module and passes on the unchanged tree
+        (d / "failing.json").write_text(json.dumps(failing, indent=1, ensure_ascii=False) + "\n")
+        r = sh([str(V / "check"), "--replay", str(d / "failing.json")], cwd=V, timeout=1800)
+        ok = r.returncode == 0
+        print("   failing input kept as regression case:", ok)
+        if not ok:
+            (d / "failing.json").unlink()
+        meta["failing_case_kept"] = ok
     meta.setdefault("detected_by", {}).update({p: {"tier": tier, "exit": v["exit"], "verdict": [l for l in v["lines"] if l.startswith("VIOLATION")]} for p, v in res.items()})
     (d / "meta.json").write_text(json.dumps(meta, indent=1) + "\n")
     return 0
